@@ -135,11 +135,10 @@ pub const URI: &str = "file:///a.spl";
 
 impl Session {
     pub fn new(diagnostics: bool) -> Self {
-        let caps = if diagnostics {
-            json!({"textDocument": {"publishDiagnostics": {}}})
-        } else {
-            json!({})
-        };
+        Self::with_capabilities(if diagnostics { json!({"textDocument": {"publishDiagnostics": {}}}) } else { json!({}) })
+    }
+    /// initialize with the given client capabilities object
+    pub fn with_capabilities(caps: Value) -> Self {
         Session {
             msgs: vec![
                 request(0, "initialize", json!({"capabilities": caps})),
